@@ -30,6 +30,7 @@ type encOp struct {
 	degree int
 	lq, lp int
 	ntt    bool
+	refuse int // 1, 2: a call the encryptor must refuse with an error (unsupported target type / nil target) without drawing a mask
 }
 
 var encOps = func() []encOp {
@@ -37,14 +38,16 @@ var encOps = func() []encOp {
 	for _, deg := range []int{0, 1} {
 		for lq := 0; lq <= 2; lq++ {
 			for _, ntt := range []bool{true, false} {
-				ops = append(ops, encOp{fmt.Sprintf("Ciphertext(degree=%d,level=%d,IsNTT=%v)", deg, lq, ntt), false, deg, lq, -1, ntt})
+				ops = append(ops, encOp{fmt.Sprintf("Ciphertext(degree=%d,level=%d,IsNTT=%v)", deg, lq, ntt), false, deg, lq, -1, ntt, 0})
 			}
 		}
 	}
-	for _, o := range []encOp{{"", true, 1, 2, 1, true}, {"", true, 0, 1, 0, true}, {"", true, 1, 0, -1, true}, {"", true, 0, 2, -1, true}} {
+	for _, o := range []encOp{{"", true, 1, 2, 1, true, 0}, {"", true, 0, 1, 0, true, 0}, {"", true, 1, 0, -1, true, 0}, {"", true, 0, 2, -1, true, 0}} {
 		o.name = fmt.Sprintf("ElementQP(degree=%d,levelQ=%d,levelP=%d)", o.degree, o.lq, o.lp)
 		ops = append(ops, o)
 	}
+	// refused calls: the mask stream must continue as if they had not happened
+	ops = append(ops, encOp{name: "refused-EncryptZero(unsupported-target-type)", refuse: 1}, encOp{name: "refused-EncryptZero(nil)", refuse: 2})
 	return ops
 }()
 
@@ -72,6 +75,30 @@ func encryptorMaskStreamScenario(first, depth int) engine.Scenario {
 				oi = c.Choose(len(encOps), "op")
 			}
 			o := encOps[oi]
+			if o.refuse != 0 {
+				for who, enc := range []*rlwe.Encryptor{encA, encB} {
+					var target interface{}
+					if o.refuse == 1 {
+						target = rlwe.NewPlaintext(params, 1)
+					}
+					err, pan := uni.Try(func() error { return enc.EncryptZero(target) })
+					if pan != nil {
+						c.Fail("C17/encryptor/refused-call/panic", "step %d %s: panics instead of returning the documented error: %v", step, o.name, pan)
+						return
+					}
+					if err == nil {
+						c.Fail("C17/encryptor/refused-call/no-error", "step %d %s (encryptor %d): no error", step, o.name, who)
+						return
+					}
+				}
+				if envA.off != envM.off || envB.off != envM.off {
+					c.Fail("C17/encryptor/refused-call/consumed-the-mask-generator", "step %d %s: %d / %d bytes of the mask generator consumed, the key holder's replay stands at %d", step, o.name, envA.off, envB.off, envM.off)
+					return
+				}
+				c.State("encryptor", envA.off, mQ.ptr, mP.ptr, "refused")
+				c.Cover("encryptor-op", o.name)
+				continue
+			}
 			rqp := params.RingQP().AtLevel(o.lq, o.lp)
 			run := func(enc *rlwe.Encryptor, degree int) (c0, c1 ringqp.Poly, err error) {
 				if o.qp {
